@@ -18,6 +18,10 @@ type Violation struct {
 	Check    string `json:"check"`
 	Sig      string `json:"sig"`
 	Detail   string `json:"detail"`
+	// VerdictOnly: the violation says that the code under test gives different results for the same input
+	// (time, process state or runtime randomness leaks into them); only the verdict can be expected to repeat
+	// on re-execution, not the event log.
+	VerdictOnly bool `json:"verdict_only,omitempty"`
 }
 
 func (v *Violation) Key() string { return v.Check + "|" + v.Sig }
@@ -198,6 +202,18 @@ func (r *Run) Flag(check, sig, format string, a ...any) {
 // Fail records a violation and unwinds the calling task/run.
 func (r *Run) Fail(check, sig, format string, a ...any) {
 	r.Flag(check, sig, format, a...)
+	panic(abortRun{})
+}
+
+// FailNonRepro is Fail for a violation of reproducibility observed within one run (the same computation done
+// twice gave two results).
+func (r *Run) FailNonRepro(check, sig, format string, a ...any) {
+	r.Flag(check, sig, format, a...)
+	r.mu.Lock()
+	if r.V != nil && r.V.Check == check && r.V.Sig == sig {
+		r.V.VerdictOnly = true
+	}
+	r.mu.Unlock()
 	panic(abortRun{})
 }
 
